@@ -32,8 +32,11 @@ TimeCfg == { <<>>, <<[op |-> "BOffset", b |-> 0, claim |-> "exp", secs |-> WOf(3
 Script(k, a, p1, p2, hc, cc, tc) ==
   << OpsOp(p1), LoadOp(<<k, Pub(k)>>), BNewOp, BSetKeyOp(IF k.alg = NONE THEN a ELSE "none", 0), Tree("hdr", hc), Tree("clm", cc) >>
   \o tc \o
-  << Gen, ClockOp(WAdd(T0, WOf(100))), OpsOp(p2), CNewOp, CSetKeyOp(IF k.alg = NONE THEN a ELSE "none", 1),
-     CSetCbOp(<<[k |-> "read"]>>), VerifyOp([src |-> "slot", slot |-> 0]) >>
+  << Gen, ClockOp(WAdd(T0, WOf(100))), OpsOp(p2), CNewOp >>
+  \o (IF tc = <<>> THEN <<>>            \* half of the cells: a checker that has already refused a setkey and a token
+      ELSE << CSetKeyOp("none", -1), CSetKeyOp("HS256", -1), VerifyOp([Tok("none", <<>>, <<>>, EmptySig) EXCEPT !.shape = "empty"]) >>)
+  \o << CSetKeyOp(IF k.alg = NONE THEN a ELSE "none", 1),
+        CSetCbOp(<<[k |-> "read"]>>), VerifyOp([src |-> "slot", slot |-> 0]) >>
 TreeScripts ==
   { Script(ka[1], ka[2], p1, p2, hc, cc, tc) :
       ka \in Pairs, p1 \in Providers, p2 \in Providers, hc \in {"flat", "empty"}, cc \in TreeClasses, tc \in TimeCfg }
